@@ -22,7 +22,9 @@ Import ListNotations.
 Open Scope N_scope.
 
 (* what the indexing loop hands to Indexer::add_record for one record *)
-Inductive ctxr := CErr | CNone | CSome (k s e : N).
+(* CErr / CPanic: the loop stops with an error / panics at this record *)
+Inductive ctxr := CErr | CPanic | CNone | CSome (k s e : N).
+Inductive ixfail := FErr | FPanic.
 
 (* noodles_core::region::Interval: either bound may be missing *)
 Definition region := (option N * option N)%type.
@@ -62,14 +64,6 @@ Fixpoint find_map_o {X Y : Type} (f : X -> option Y) (l : list X) : option Y :=
 (* Index::last_first_record_start_position: reference_sequences.iter().rev().find_map(..) *)
 Definition unmapped_start (kd : kind) (ixs : list refidx) : option N :=
   find_map_o (last_first kd) (rev ixs).
-
-(* Indexer::add_record refuses a reference id below the current one (the current one is 0 before
-   the first placed record) *)
-Fixpoint rids_mono (cur : N) (l : list rec) : bool :=
-  match l with
-  | [] => true
-  | r :: t => (cur <=? r_rid r) && rids_mono (r_rid r) t
-  end.
 
 (* number of reference sequences of the built index: the indexer has grown to the last (= largest)
    reference id seen, build(nref) pads to nref *)
@@ -118,19 +112,44 @@ Section Fmt.
   (* no alignment context: Indexer::add_record only counts the record *)
   Definition unplaced_f (x : A) : bool := match to_rec x with None => true | Some _ => false end.
 
-  Definition ctx_ok (l : list A) : bool :=
-    forallb (fun x => match ctx x with CErr => false | _ => true end) l.
+  (* the indexing loop, record by record: the first record that makes it stop decides how.
+     Indexer::add_record refuses (InvalidInput) a reference id below the current one (0 before
+     the first placed record).  None = the loop reaches the end of the file. *)
+  Fixpoint index_scan (cur : N) (l : list A) : option ixfail :=
+    match l with
+    | [] => None
+    | x :: t =>
+        match ctx x with
+        | CErr => Some FErr
+        | CPanic => Some FPanic
+        | CNone => index_scan cur t
+        | CSome k _ _ => if cur <=? k then index_scan k t else Some FErr
+        end
+    end.
 
-  (* <fmt>::fs::index: None = the indexing loop returns an error *)
+  (* <fmt>::fs::index: None = the indexing loop fails (how: index_scan) *)
   Definition fmt_index (ms : N) (d : nat) (nref : nat) (l : list A) : option (list refidx) :=
-    if ctx_ok l && rids_mono 0 (placed l) then
+    match index_scan 0 l with
+    | Some _ => None
+    | None =>
       Some (map (fun k => build_ref ms d (N.of_nat k) (placed l)) (seq 0 (ref_count nref (placed l))))
-    else None.
+    end.
 
   (* csi::io::Query over the format's records: positions of record starts are the oa *)
   Definition in_chunk_f (c : chunk) (x : A) : bool := (cstart c <=? oa x) && (oa x <? cend c).
   Definition chunk_read_f (cs : list chunk) (l : list A) : list A :=
     flat_map (fun c => filter (in_chunk_f c) l) cs.
+
+  (* csi::io::Query as it behaves for ANY chunk list: in State::Read(end) it calls the reader's
+     fill_buf while virtual_position() < end; at the end of the data (virtual position eof = the
+     offset after the last record) with eof < end that returns an empty buffer, which the format
+     reader takes for the end of the stream: the remaining chunks are never read.  Index-built
+     chunk lists have ends <= eof, where this is chunk_read_f (FormatsProofs.chunk_read_eof_eq). *)
+  Fixpoint chunk_read_eof (eof : N) (cs : list chunk) (l : list A) : list A :=
+    match cs with
+    | [] => []
+    | c :: t => filter (in_chunk_f c) l ++ (if eof <? cend c then [] else chunk_read_eof eof t l)
+    end.
 
   (* Reader::query(index, region) with the reference already resolved to its id k *)
   Definition fmt_query (kd : kind) (ms : N) (d : nat) (ixs : list refidx) (l : list A)
@@ -203,8 +222,10 @@ Definition bam_hit (k : N) (iv : region) (x : bam_rec) : option bool :=
   end.
 
 Definition bam_index := fmt_index bam_rec bam_ctx b_a b_b.
+Definition bam_index_scan := index_scan bam_rec bam_ctx 0.
 Definition bam_query := fmt_query bam_rec b_a bam_hit.
 Definition bam_query_unmapped := fmt_query_unmapped bam_rec b_a b_unm.
+Definition bam_chunk_read := chunk_read_eof bam_rec b_a.
 
 (* the scan the property compares with: same reference, and the span POS .. POS + (sum of the
    M D N = X lengths) - 1 (POS alone when that sum is 0) meets the region *)
